@@ -100,12 +100,16 @@ def random_layout(rng, levels, kind=None):
             keys = list(range(n)); rng.shuffle(keys)
             lay = [[0, keys[i]] for i in range(n)]
         elif k == "files":
-            nf = rng.randint(1, min(n, 4))
+            nf = rng.randint(min(n, 2), min(n, 4))
             lay = [[rng.randrange(nf), i] for i in range(n)]
+            if n >= 2:
+                lay[0][0], lay[-1][0] = 1, 0
         else:
-            nf = rng.randint(1, min(n, 4))
+            nf = rng.randint(min(n, 2), min(n, 4))
             keys = list(range(n)); rng.shuffle(keys)
             lay = [[rng.randrange(nf), keys[i]] for i in range(n)]
+            if n >= 2:
+                lay[0][0], lay[-1][0] = 1, 0
         # file numbers used must be dense enough to be distinct names only; any set is fine
         out.append(lay)
     return out
